@@ -188,6 +188,9 @@ func concurrentRegulator(ctx *RunCtx, rep *Report, prop string, extra map[string
 		}
 	}
 	for p, n := range pairs {
+		if prop == "C20" {
+			break // races are reported under C09/C19; C20 looks at what the concurrent phase does to convergence
+		}
 		rep.Violate(&Violation{Prop: prop, Rule: prop + "/data-race", Cause: p, Msg: fmt.Sprintf("race detector: %d report(s) between %s while registrations, syncs and releases run on different goroutines", n, p), Kind: "conc", Case: firstLines(out, 40)})
 		rep.ViolCount[prop+"/data-race|"+p] += int64(n) - 1
 	}
@@ -313,8 +316,11 @@ func checkC19(ctx *RunCtx) int {
 func checkC20(ctx *RunCtx) int {
 	rep := NewReport()
 	runWorldChecks(ctx, rep, "C20", []string{"C20"}, ctx.N(40000, 300000), ctx.N(300, 5000), true)
+	extra := map[string]interface{}{}
+	concurrentRegulator(ctx, rep, "C20", extra)
 	return finish(ctx, rep, &CheckSpec{
-		Prop: "C20", Level: "exploration", EvalCounter: "fixpoint_searches", NonTrivSet: "nontrivial20",
+		Extra: extra,
+		Prop:  "C20", Level: "exploration", EvalCounter: "fixpoint_searches", NonTrivSet: "nontrivial20",
 		Rule:        "from the end state of every random history and from checkpoints inside long tournaments (any phase after the start): sweeps that sync every table once in a random order with no eliminations and carry out all instructions, until a sweep asks for no release, hand-out or break; bounded by (tables at start + 8) sweeps - convergence is restated as bounded progress, the bound exposes oscillation and does not certify a constant; a table told to break must release its whole membership and each of those players must then be queued or seated elsewhere. evaluations = fixpoint searches; non-trivial = distinct histories whose end state needed at least one rebalancing sweep; histogram of sweeps needed is in coverage.histograms",
 		Required:    []string{"fixpoint_searches", "class_rebalancing_needed", "class_table_broken"},
 		Assumptions: []string{"liveness restated as bounded progress: no finite run decides 'eventually settles'"},
